@@ -6,7 +6,7 @@ Confirms a seeded change independently and runs our checks against it:
      the demonstration FAILS with it and PASSES without it;
   2. applies the patch to /repo, runs `./check Cxx quick` (and `thorough` if quick misses it), and
      undoes it straight afterwards (`git -C /repo checkout -- .`);
-  3. stores patch.diff, the demonstration and meta.json under /verif/seeded/<name>/.
+  3. prints the result as JSON; tools/collect_seeds.py stores confirmed seeds under /verif/seeded/.
 """
 import json, os, shutil, subprocess, sys, time
 
@@ -34,7 +34,9 @@ def run_demo(wt):
                 pkg = "/".join(pkg.split("/")[4:])
         dst = os.path.join(wt, pkg, "zz_demo_seed_test.go")
         shutil.copyfile(os.path.join(src, "demo_test.go"), dst)
-        rc, out = sh(f"go test -count=1 ./{pkg}", cwd=wt)
+        # a demonstration may need the repository's own verif hooks (e.g. the launcher pause point)
+        tags = "-tags verif " if "-tags verif" in (meta.get("demo") or "") + (meta.get("needs") or "") else ""
+        rc, out = sh(f"go test {tags}-count=1 ./{pkg}", cwd=wt)
         os.remove(dst)
         return rc == 0, out
     if os.path.isdir(os.path.join(src, "demo")):
@@ -113,20 +115,5 @@ if confirmed:
             shutil.rmtree(target, ignore_errors=True)
     # restore evidence and generated files of the unchanged tree
     subprocess.run(["./check", pid, "quick"], cwd=VDIR, capture_output=True, text=True, timeout=3600)
-    dst = os.path.join("/verif/seeded", name)
-    os.makedirs(dst, exist_ok=True)
-    shutil.copyfile(patch, os.path.join(dst, "patch.diff"))
-    for f in ("demo_test.go",):
-        if os.path.exists(os.path.join(src, f)):
-            shutil.copyfile(os.path.join(src, f), os.path.join(dst, f + ".txt"))
-    if os.path.isdir(os.path.join(src, "demo")):
-        shutil.copytree(os.path.join(src, "demo"), os.path.join(dst, "demo"), dirs_exist_ok=True)
-        for root, _, fs in os.walk(os.path.join(dst, "demo")):
-            for f in fs:
-                if f.endswith(".go"):
-                    os.rename(os.path.join(root, f), os.path.join(root, f + ".txt"))
-    json.dump({"breaks_property": pid, "summary": meta.get("summary"), "needs_to_manifest": meta.get("needs"),
-               "demonstration": meta.get("demo"), "confirmed_by": "tools/seedtest.py: patch applies, go build+test pass with it, demonstration fails with it and passes without it (scratch worktree)",
-               "ran": res.get("checks"), "detected": res.get("detected"), "detected_with_concrete_input": res.get("detected_with_input")},
-              open(os.path.join(dst, "meta.json"), "w"), indent=1)
+    # storing under /verif/seeded/<Cxx>-r<round>-<k>/ is done by tools/collect_seeds.py from the result files
 print(json.dumps(res, indent=1))
